@@ -30,6 +30,9 @@ func verifLogEvent(i int, kind int) sdk.ContractEvent {
 	pb := zzverif.Bytes("payload", 2)
 	zzverif.Assume(pb[0] != AttestTokenPayloadId)
 	payload := hex.EncodeToString(pb)
+	if i == 0 && kind != verifKAttest && zzverif.Len("emptyPayload", 0, 1) == 1 {
+		payload = "" // a message may carry no payload at all
+	}
 	if kind == verifKAttest {
 		p := make([]byte, 100)
 		p[0] = AttestTokenPayloadId
